@@ -179,7 +179,7 @@ def run(ctx):
     ctx.extra["op_kinds"] = kinds
     # direct constructor routes and statelessness
     for name, fn in (("plain-bitarray", plain_bitarray_case), ("order-state", order_state_case), ("repeat", repeat_case),
-                     ("option-history", option_history_case)):
+                     ("option-history", option_history_case), ("vm-stack-inputs", vm_stack_case)):
         for _ in range(ctx.n(30, 300)):
             r = core.call_impl(lambda _: fn(rng), None)
             if r != "ok":
@@ -260,13 +260,49 @@ def option_history_case(rng):
     return "ok"
 
 
+def vm_stack_case(rng):
+    """serialising a TVM stack any number of times gives the same cell and leaves the caller's values (nested tuples,
+    cells, slices) untouched"""
+    from pytoniq_core.boc.builder import Builder
+    from pytoniq_core.tlb.vm_stack import VmStack, VmTuple
+
+    def val(depth):
+        k = rng.randrange(5 if depth < 3 else 3)
+        if k == 0:
+            return rng.choice([0, -1, 2 ** 63, -2 ** 63 - 1, rng.getrandbits(200)])
+        if k == 1:
+            return Builder().store_uint(rng.getrandbits(16), 16).end_cell()
+        if k == 2:
+            return Builder().store_uint(rng.getrandbits(8), 8).store_ref(Builder().end_cell()).end_cell().begin_parse()
+        return VmTuple([val(depth + 1) for _ in range(rng.choice([0, 1, 2, 3, 4]))])
+
+    def snap(v):
+        if isinstance(v, VmTuple):
+            return ("t", tuple(snap(x) for x in v.list))
+        if hasattr(v, "hash"):
+            return ("c", v.hash)
+        if hasattr(v, "bits"):
+            return ("s", v.bits.to01(), len(v.refs), getattr(v, "ref_offset", 0))
+        return ("i", v)
+    stack = [val(0) for _ in range(rng.choice([1, 2, 4]))]
+    before = [snap(v) for v in stack]
+    a = VmStack.serialize(stack)
+    mid = [snap(v) for v in stack]
+    b = VmStack.serialize(stack)
+    if mid != before or [snap(v) for v in stack] != before:
+        return "VmStack.serialize modified the caller's values"
+    if a.hash != b.hash:
+        return "serialising the same stack twice gave two different cells"
+    return "ok"
+
+
 def replay(ctx, obj):
     c = obj["case"]
     if "ops" in c:
         v, bad = run_history(c["ops"])
         return bad
     fn = {"plain-bitarray": plain_bitarray_case, "order-state": order_state_case, "repeat": repeat_case,
-          "option-history": option_history_case}[c["special"]]
+          "option-history": option_history_case, "vm-stack-inputs": vm_stack_case}[c["special"]]
     for _ in range(50):
         r = core.call_impl(lambda _: fn(ctx.rng), None)
         if r != "ok":
